@@ -200,6 +200,11 @@ def _plant_members(term, rows, r):
                 for dv in (-1, 0, 1):
                     if -2 ** 63 <= v + dv < 2 ** 63:
                         plants.append((x[2][1], v + dv))
+        if x[0] == "cmp" and x[2][0] == "id" and x[2][1] == "r1" and x[3][0] == "lit" and x[3][1] == "float":
+            v = float(x[3][2])
+            if abs(v) >= 100000:
+                for dv in (-0.25, 0.0, 0.25):
+                    plants.append(("r1", v + dv))
     if not plants:
         return rows
     base = list(rows)
